@@ -145,23 +145,26 @@ fn main() {
                     if thorough && nodes == 2 && entry {
                         depth = 4;
                     }
-                    runs.push((Cfg { ext, cached, nodes, late, alpha, mixed: false, ts: 0, entry }, depth));
+                    runs.push((Cfg { ext, cached, nodes, late, alpha, mixed: false, ts: 0, entry, same_id: false }, depth));
                 }
             }
         }
     }
     // timestamps: {session generator} x {explicit timestamp on the statement}; the all-off combination is every run above
     for ts in [3u8, 1, 2] {
-        runs.push((Cfg { ext: true, cached: false, nodes: 1, late: false, alpha: if thorough { 2 } else { 1 }, mixed: false, ts, entry: thorough }, if thorough { 5 } else { 2 }));
+        runs.push((Cfg { ext: true, cached: false, nodes: 1, late: false, alpha: if thorough { 2 } else { 1 }, mixed: false, ts, entry: thorough, same_id: false }, if thorough { 5 } else { 2 }));
     }
     // other entry points / lifecycles (quick: two dedicated shallow runs; thorough: part of every run)
     if !thorough {
-        runs.push((Cfg { ext: true, cached: false, nodes: 1, late: false, alpha: 1, mixed: false, ts: 0, entry: true }, 3));
-        runs.push((Cfg { ext: false, cached: true, nodes: 1, late: false, alpha: 1, mixed: false, ts: 0, entry: true }, 3));
+        runs.push((Cfg { ext: true, cached: false, nodes: 1, late: false, alpha: 1, mixed: false, ts: 0, entry: true, same_id: false }, 3));
+        runs.push((Cfg { ext: false, cached: true, nodes: 1, late: false, alpha: 1, mixed: false, ts: 0, entry: true, same_id: false }, 3));
     }
+    // column-less PREPARED whose REAL id is later re-announced, with the columns, under the SAME id (LIST ROLES OF on ScyllaDB)
+    runs.push((Cfg { ext: true, cached: false, nodes: 1, late: true, alpha: if thorough { 2 } else { 1 }, mixed: false, ts: 0, entry: thorough, same_id: true }, if thorough { 6 } else { 3 }));
+    runs.push((Cfg { ext: true, cached: true, nodes: 2, late: true, alpha: if thorough { 1 } else { 0 }, mixed: false, ts: 0, entry: false, same_id: true }, if thorough { 4 } else { 2 }));
     // mixed cluster: node 0 with the metadata-id extension, node 1 without; the statement's metadata is shared by both
     for cached in [true, false] {
-        runs.push((Cfg { ext: false, cached, nodes: 2, late: false, alpha: if thorough { 1 } else { 0 }, mixed: true, ts: if cached { 0 } else { 3 }, entry: false }, if thorough { 5 } else { 3 }));
+        runs.push((Cfg { ext: false, cached, nodes: 2, late: false, alpha: if thorough { 1 } else { 0 }, mixed: true, ts: if cached { 0 } else { 3 }, entry: false, same_id: false }, if thorough { 5 } else { 3 }));
     }
     // cheap configurations first, so that a wall cap (reported, never silent) can only cut the tail
     runs.sort_by_key(|(c, _)| c.nodes);
@@ -221,7 +224,7 @@ fn main() {
     }
     // E-BFS audit (thorough): the same space explored with 3 and with all worker threads must give identical counts
     if thorough && only.is_none() {
-        let cfg = Cfg { ext: true, cached: false, nodes: 1, late: true, alpha: 2, mixed: false, ts: 0, entry: true };
+        let cfg = Cfg { ext: true, cached: false, nodes: 1, late: true, alpha: 2, mixed: false, ts: 0, entry: true, same_id: false };
         let m = M { cfg, max_version: 4, r: &r };
         let a = bfs(&m, &BfsOpts { max_depth: 4, max_states: 2_000_000, wall: Duration::from_secs(600), jobs: 3, max_violations: 1 });
         let b = bfs(&m, &BfsOpts { max_depth: 4, max_states: 2_000_000, wall: Duration::from_secs(600), jobs, max_violations: 1 });
